@@ -2799,6 +2799,7 @@ func (pc *PeerConnection) startTransports(
 	dtlsRole DTLSRole,
 	remoteUfrag, remotePwd, fingerprint, fingerprintHash string,
 ) {
+	verifhook.Note("pc.startTransports", pc, int(iceRole), int(dtlsRole))
 	if verifhook.Skip("transports") {
 		return
 	}
